@@ -5,7 +5,7 @@ Tie: (C1) in-process: Model/Split.v `split_file` (extracted) vs the real
           VirtualAttributions::to_authorship_log_and_initial_working_log on real scratch repositories
           (P = parent, C = commit, W = work tree of pairwise distinct lines), the model being fed the hunks
           that the real `git diff -U0` reports; for inputs in the spec domain (wf3) the spec-level
-          derivation committed/unstaged/pure_ins must equal git's hunks (monitor).
+          derivation committed/unstaged/hunks_of must equal git's hunks (monitor).
           No /repo hook is needed (the method and the constructor are public).
      (C2) LineRange::compress_lines/expand and VirtualAttributions::to_authorship_log vs the model.
      (C3) system level: the real binary driven through checkpoints, partial staging, unstaged edits and
@@ -33,19 +33,20 @@ from .gitsim import Sim, session_hash
 GEN_FILES = ["GenSplit"]
 DRIVERS = ["split"]
 THEOREMS = ["C04_expand_compress", "C04_compress_wf", "C04_split_no_panic", "C04_split_exact",
-            "C04_struct_implies_consistent", "C04_split_exact_insertions", "C04_unkept_line_unrecorded",
+            "C04_translation_exact", "C04_split_exact_decidable", "C04_unkept_line_unrecorded",
             "C04_carry", "C04_carry_needs_pathspec",
-            "C04_deletion_refuted", "C04_modify_refuted", "C04_hidden_refuted",
-            "C04_nonvacuous", "C04_nonvacuous_tail"]
+            "C04_deletion_fixed", "C04_modify_fixed", "C04_hidden_refuted",
+            "C04_nonvacuous", "C04_nonvacuous_edits_above"]
 CLAIM = {
     "text": "Machine-checked proof (Coq 8.16.1) over an executable Gallina model of the per-file body of "
-            "to_authorship_log_and_initial_working_log: under the boolean side condition shift_consistent "
-            "(the filter step hides no unstaged line and the computed offset of every kept line is its true "
-            "position in the commit; structurally: deletions/replacements only below every kept line) every "
-            "AI-claimed work-tree line is recorded exactly once - in the note at its commit position if the "
-            "commit added it, in INITIAL at its work-tree position if the commit left it out, nowhere if it "
-            "pre-existed - and nothing else is recorded; the statement without the side condition is proved "
-            "false (three witnesses) and the excluded inputs are listed known findings.",
+            "to_authorship_log_and_initial_working_log with the repaired work-tree -> commit line translation "
+            "(hunk extents of git diff -U0): the translation of every kept line is its true position in the commit "
+            "whatever is inserted, deleted or rewritten above it, and under the boolean side condition no_hidden "
+            "(no unstaged line takes the place of a line this commit added) every AI-claimed work-tree line is "
+            "recorded exactly once - in the note at its commit position if the commit added it, in INITIAL at its "
+            "work-tree position if the commit left it out, nowhere if it pre-existed - and nothing else is recorded; "
+            "the statement without the side condition is proved false (one witness, deliberate behaviour) and the "
+            "excluded inputs are listed known findings; the former witnesses K1/K2 are positive regression theorems.",
     "design_ref": "DESIGN.md §4 C04",
     "note": "Covers the split of one commit and (by test only) the carry to the next commit; sequences of "
             "commits (C04_once) are not proved here; C04_carry proves the per-file carry step (pathspec union + "
@@ -70,9 +71,9 @@ ASSUMPTIONS = [
 
 TOOL = "toolx"
 PATH = "f.txt"
-K1 = "C04-K1 unstaged deletion above staged AI lines"
-K2 = "C04-K2 unstaged modification of a pre-existing line above staged AI lines"
-K3 = "C04-K3 unstaged rewrite of a just-committed line hidden by the committed/unstaged filter"
+# C04-K1 (unstaged deletion above staged AI lines) and C04-K2 (unstaged modification of a pre-existing line
+# above staged AI lines) are FIXED: their witnesses are regression scenarios of the corpus and excuse nothing.
+K3 = "C04-K3 unstaged rewrite of a just-committed line is credited to the commit (hidden by the committed/unstaged filter)"
 K4 = "C04-K4 staged AI line deleted or rewritten in the work tree before the commit is recorded for nobody"
 
 
@@ -223,13 +224,15 @@ def corpus_scenarios():
     """fixed witnesses: (name, P, sessions [(session, content_after)], C, later [(actor, content_after)])"""
     return [
         ("nonvacuous", [1, 2, 3], [("s1", [1, 12, 2, 10, 11, 14, 3, 13])], [1, 2, 10, 14, 3], []),
-        ("K1-min", [1], [("s1", [1, 2])], [1, 2], [("H", [2])]),
-        ("K2-min", [1], [("s1", [1, 2])], [1, 2], [("H", [3, 2])]),
+        ("K1-regression-min", [1], [("s1", [1, 2])], [1, 2], [("H", [2])]),
+        ("K2-regression-min", [1], [("s1", [1, 2])], [1, 2], [("H", [3, 2])]),
         ("K3-min", [1], [("s1", [1, 2])], [1, 2], [("s2", [1, 3])]),
         ("K4-min", [1], [("s1", [1, 2, 3])], [1, 2, 3], [("H", [1, 2])]),
-        ("K1-design", [1, 2, 3], [("s1", [1, 2, 10, 11, 3])], [1, 2, 10, 11, 3], [("H", [2, 10, 11, 3])]),
-        ("K2-design", [1, 2, 3], [("s1", [1, 2, 10, 11, 3])], [1, 2, 10, 11, 3], [("H", [20, 2, 10, 11, 3])]),
+        ("K1-regression-design", [1, 2, 3], [("s1", [1, 2, 10, 11, 3])], [1, 2, 10, 11, 3], [("H", [2, 10, 11, 3])]),
+        ("K2-regression-design", [1, 2, 3], [("s1", [1, 2, 10, 11, 3])], [1, 2, 10, 11, 3], [("H", [20, 2, 10, 11, 3])]),
         ("tail-replace-ok", [1, 2], [("s1", [11, 1, 10, 2])], [1, 10, 2], [("s1", [11, 1, 10, 12])]),
+        ("edits-above-regression", [1, 2, 4, 3], [("s1", [1, 2, 4, 21, 10, 11, 3])], [1, 2, 4, 10, 11, 3],
+         [("H", [20, 4, 21, 10, 11, 22])]),
     ]
 
 
@@ -376,25 +379,25 @@ def expected_sets(p, c, w, author):
     return en, ei
 
 
-def classify_known(p, c, w, author, sc_bool, nohidden):
-    """known classes (decidable predicates on the input) that apply to this scenario"""
+def classify_known(p, c, w, author, nohidden):
+    """open known classes (decidable predicates on the input) that apply to this scenario"""
     out = set()
     sp, sw = set(p), set(w)
     if any(author[x] != "H" and x not in sp and x not in sw for x in c):
         out.add(K4)
-    if not sc_bool:
-        if not nohidden:
-            out.add(K3)
-        hs = hunks_between(c, w)
-        kept_after = lambda a0, al: any(x in sw for x in c[a0 + al:])   # noqa: E731
-        for a0, al, b0, bl in hs:
-            if al > 0 and kept_after(a0, al):
-                if bl == 0 or bl < al:
-                    out.add(K1)
-                if bl > 0:
-                    out.add(K2)
+    if not nohidden:
+        out.add(K3)
     return out
 
+
+def py_no_hidden(p, c, w):
+    """independent reading of no_hidden (used when the model is unavailable)"""
+    sp, sw = set(p), set(w)
+    for a0, al, b0, bl in hunks_between(c, w):
+        for j in range(min(al, bl)):
+            if c[a0 + j] not in sp:
+                return False
+    return True
 
 
 # ------------------------------------------------------------------ C3b: carry across commits
@@ -625,14 +628,16 @@ def run(ctx):
             if isinstance(hk, dict):
                 violations.append(("engine error (git diff)", hk))
                 continue
-            k, u, pu, _ = hk
-            split_in.append((i, " ".join(C.sx(x) for x in [[[a, b, C.cps(au)] for a, b, au in attrs], k, u, pu])))
+            k, u, pu, hh = hk
+            split_in.append((i, " ".join(C.sx(x) for x in [[[a, b, C.cps(au)] for a, b, au in attrs], k, u,
+                                                            [[oc, ns, nc] for _, oc, ns, nc in hh]])))
         model = C.run_cases(C.driver_path("split"), "c04-split", split_in) if ctx.model_ok else {}
-        n_wf = n_sc = n_sc_fail = n_struct_diff = n_derive_bad = 0
+        n_wf = n_sc = n_sc_fail = n_derive_bad = 0
         for (i, p, c, w, attrs), hk in zip(cases, hunks):
             if isinstance(hk, dict):
                 continue
-            k, u, pu, _ = hk
+            k, u, pu, hh = hk
+            gh = [[oc, ns, nc] for _, oc, ns, nc in hh]
             a = impl.get(i)
             if a is None or a == "panic" or a.startswith("err") or a.startswith("unexpected"):
                 violations.append((f"split panicked/failed on P={p} C={c} W={w} attrs={attrs}: {a}",
@@ -640,20 +645,18 @@ def run(ctx):
                 continue
             if ctx.model_ok:
                 if model.get(i) != a:
-                    mism.append((i, f"P={p} C={c} W={w} attrs={attrs} hunks={k},{u},{pu}: impl {a} model {model.get(i)}"))
+                    mism.append((i, f"P={p} C={c} W={w} attrs={attrs} hunks={k},{u},{gh}: impl {a} model {model.get(i)}"))
                 f = fields(spec[i])
                 is_wf = f["wf3"][0] == 1
                 if is_wf != wf3(p, c, w):
                     mism.append((i, f"wf3 differs on {p} {c} {w}"))
                 if is_wf:
                     n_wf += 1
-                    if (f["committed"][0], f["unstaged"][0], f["pure"][0]) != (k, u, pu):
+                    if (f["committed"][0], f["unstaged"][0], f["hunks"][0]) != (k, u, gh):
                         n_derive_bad += 1
                         mism.append((i, f"spec-level hunks differ from git diff -U0: P={p} C={c} W={w} "
-                                        f"spec {f['committed'][0]},{f['unstaged'][0]},{f['pure'][0]} git {k},{u},{pu}"))
-                    if f["sc"][0] != f["struct"][0]:
-                        n_struct_diff += 1
-                    if f["sc"][0] == 1:
+                                        f"spec {f['committed'][0]},{f['unstaged'][0]},{f['hunks'][0]} git {k},{u},{gh}"))
+                    if f["nohidden"][0] == 1:
                         n_sc += 1
                         if f["awf"][0] == 1:
                             v = f["v"]
@@ -663,15 +666,13 @@ def run(ctx):
                 if any(au != "human" for _, _, au in attrs) and (k or u):
                     distinct.add(body[i])
             if len(samples) < 3 and k and u and attrs:
-                samples.append({"case": "inprocess", "P": p, "C": c, "W": w, "attrs": attrs, "git_hunks": [k, u, pu],
+                samples.append({"case": "inprocess", "P": p, "C": c, "W": w, "attrs": attrs, "git_hunks": [k, u, gh],
                                 "impl": a, "model": model.get(i), "spec": spec.get(i)})
         obligations.append(("tie:correspondence Model/Split.v split_file vs to_authorship_log_and_initial_working_log",
                             (not mism) and ctx.model_ok, "; ".join(m[1] for m in mism[:3]) if mism else
                             ("" if ctx.model_ok else "model did not build")))
-        obligations.append(("monitor:spec-level committed/unstaged/pure_ins equal the hunks of real git diff -U0 (wf3 inputs)",
+        obligations.append(("monitor:spec-level committed/unstaged/hunks_of equal the hunks of real git diff -U0 (wf3 inputs)",
                             n_derive_bad == 0, f"{n_derive_bad} differ"))
-        obligations.append(("monitor:shift_consistent equals its structural form on wf3 inputs", n_struct_diff == 0,
-                            f"{n_struct_diff} differ"))
     finally:
         for k_, v_ in saved.items():
             if v_ is None:
@@ -693,7 +694,7 @@ def run(ctx):
     sspec = C.run_cases(C.driver_path("split"), "c04-spec", spec_in) if ctx.model_ok else {}
     sys_mism, n_run = [], 0
     n_known_fail = n_pass = n_sc_sys = 0
-    sdist = {"sc": 0, "not_sc": 0, "skipped": 0}
+    sdist = {"no_hidden": 0, "hidden": 0, "skipped": 0}
     for x in res:
         if "error" in x:
             violations.append(("engine error", x))
@@ -707,10 +708,11 @@ def run(ctx):
         got_n = {h: set(v) for h, v in x["note"].items() if v}
         got_i = {h: set(v) for h, v in x["init"].items() if v}
         en, ei = expected_sets(p, c, w, author)
-        sc_bool, nohidden = None, True
+        nohidden = py_no_hidden(p, c, w)
         if ctx.model_ok and str(x["idx"]) in sspec:
             f = fields(sspec[str(x["idx"])])
-            sc_bool, nohidden = f["sc"][0] == 1, f["nohidden"][0] == 1
+            if (f["nohidden"][0] == 1) != nohidden:
+                sys_mism.append(f"{x['name']}#{x['idx']}: no_hidden differs between the model and the check")
             pn, pi = parse_out(sspec[str(x["idx"])])
             pn = {a: set(v) for a, v in pn.items() if v}
             pi = {a: set(v) for a, v in pi.items() if v}
@@ -718,12 +720,8 @@ def run(ctx):
                 sys_mism.append(f"{x['name']}#{x['idx']} P={p} C={c} W={w}: model note {pn} init {pi}; binary note {got_n} init {got_i}")
             if f["wf3"][0] != 1:
                 sys_mism.append(f"{x['name']}#{x['idx']}: generated scenario outside wf3")
-        else:
-            # model unavailable: structural reading computed here
-            sw = set(w)
-            kept = [y in sw for y in c]
-            sc_bool = (False not in kept) or (True not in kept[kept.index(False):])
-        sdist["sc" if sc_bool else "not_sc"] += 1
+        sc_bool = nohidden
+        sdist["no_hidden" if nohidden else "hidden"] += 1
         distinct.add(("sys", tuple(p), tuple(c), tuple(w), tuple(sorted(x["author"].items()))))
         fails = []
         if not x["committed_text_ok"]:
@@ -741,9 +739,9 @@ def run(ctx):
                              f"lines are {sorted((h, sorted(s)) for h, s in ei.items())}")
         if len(samples) < 6:
             samples.append({"case": "system", "name": x["name"], "P": p, "C": c, "W": w, "note": x["note"], "init": x["init"],
-                            "note2": x["note2"], "shift_consistent": sc_bool, "oracle_failures": fails})
+                            "note2": x["note2"], "no_hidden": nohidden, "oracle_failures": fails})
         if fails:
-            classes = classify_known(p, c, w, author, sc_bool, nohidden)
+            classes = classify_known(p, c, w, author, nohidden)
             if classes:
                 n_known_fail += 1
                 known_seen.update(classes)
@@ -822,7 +820,7 @@ def run(ctx):
                     fl = fields(cspec[key])
                     classes |= classify_known(cm["before"].get(f_, []), cf, x["final"][f_],
                                               {y: author.get(y, "H") for y in set(cm["before"].get(f_, [])) | set(cf) | set(x["final"][f_])},
-                                              fl["sc"][0] == 1, fl["nohidden"][0] == 1)
+                                              fl["nohidden"][0] == 1)
                     pn, _ = parse_out(cspec[key])
                     pn = {a: set(v) for a, v in pn.items() if v}
                     if pn != got.get(f_, {}):
@@ -873,8 +871,8 @@ def run(ctx):
                     "of the scenarios also an unrelated AI checkpoint+commit); distinct by scenario",
             "samples": samples,
             "input_distribution": {"inprocess_kinds": dist, "system": sdist},
-            "hypothesis_hit_rate": {"wf3": f"{n_wf}/{len(cases)}", "shift_consistent": f"{n_sc}/{n_wf}",
-                                    "system_shift_consistent_and_oracle_pass": f"{n_sc_sys}/{n_run}"},
+            "hypothesis_hit_rate": {"wf3": f"{n_wf}/{len(cases)}", "no_hidden": f"{n_sc}/{n_wf}",
+                                    "system_no_hidden_and_oracle_pass": f"{n_sc_sys}/{n_run}"},
             "oracle_failures_in_known_classes": n_known_fail,
             "oracle_passes": n_pass,
             "correspondence_mismatches": len(mism) + len(sys_mism),
